@@ -129,6 +129,20 @@ func AllMatchFields() []*wire.N {
 		out = append(out, Oxm(in, false, int(in.Field), 0))
 		if in.Maskable {
 			out = append(out, Oxm(in, true, int(in.Field)+2, 0))
+			// the two masks an implementation is tempted to treat specially: all ones ("exact match",
+			// which OVS prints without mask) and all zeros ("wildcard")
+			ones := Oxm(in, true, int(in.Field)+3, 0)
+			for i := range ones.B["Mask"] {
+				ones.B["Mask"][i] = 0xff
+			}
+			zero := Oxm(in, true, int(in.Field)+4, 0)
+			for i := range zero.B["Mask"] {
+				zero.B["Mask"][i], zero.B["Value"][i] = 0, 0
+			}
+			if in.Name == "OXM_OF_VLAN_VID" {
+				zero.B["Value"][0], zero.B["Mask"][0] = 0x10, 0x10
+			}
+			out = append(out, ones, zero)
 		}
 	}
 	out = append(out, OxmExperimenter(42, false, 1), OxmExperimenter(42, true, 2), OxmExperimenter(43, false, 3))
@@ -184,6 +198,15 @@ func Controller(thorough bool, expired func() bool, level func(name string, comp
 		yield(Simple(k))
 	}
 	yield(Hello())
+	// hello with 0..3 version-bitmap elements of 1..3 bitmaps each (set through the exported fields)
+	yield(wire.New("hello"))
+	for _, counts := range [][]int{{2}, {3}, {1, 1}, {2, 1}, {1, 2}, {3, 1}, {2, 2}, {1, 1, 1}, {2, 3, 1}, {3, 2, 2}} {
+		h := wire.New("hello")
+		for i, c := range counts {
+			h.Add("Elements", wire.New("hello_elem_versionbitmap").Set("Type", 1).SetB("Bitmaps", Pat(4*c, i+c)))
+		}
+		yield(h)
+	}
 	yield(SetConfig("set_config"))
 	for c := uint64(0); c < 5; c++ {
 		yield(FlowMod(c, nil))
@@ -245,7 +268,7 @@ func Controller(thorough bool, expired func() bool, level func(name string, comp
 		yield(MultipartRequest(1, Match(f.Clone())))
 		yield(MultipartRequest(2, Match(f.Clone())))
 	}
-	for _, k := range []string{"instr_goto_table", "instr_write_metadata", "instr_write_actions", "instr_apply_actions", "instr_meter"} {
+	for _, k := range []string{"instr_goto_table", "instr_write_metadata", "instr_write_actions", "instr_apply_actions", "instr_meter", "instr_clear_actions"} {
 		yield(FlowMod(0, nil, Instr(k, 1)))
 	}
 	yield(FlowMod(0, nil, Instr("instr_meter", 2), Instr("instr_goto_table", 3)))
@@ -294,6 +317,37 @@ func Controller(thorough bool, expired func() bool, level func(name string, comp
 		yield(GroupMod(2, 0, clones(s...)...))
 	})
 	if done("L2 all ordered pairs: 25x25 action kinds in 5 containers, match reps, instructions, buckets") {
+		return
+	}
+	// L2b: lists longer than two. All ordered triples over four actions of different sizes, and lists
+	// of 4, 5 and 8 distinct kinds, in every container (with the builder histories this puts a prepend
+	// in front of a list that already holds two or more children, and appends behind three or more)
+	seqs(arep[:4], 3, 3, func(s []*wire.N) {
+		if !expired() {
+			actionContainers(s, yield)
+		}
+	})
+	for _, ln := range []int{4, 5, 8} {
+		for start := 0; start < 3; start++ {
+			var l []*wire.N
+			for i := 0; i < ln; i++ {
+				l = append(l, base[(start*7+i*3)%len(base)].Clone())
+			}
+			actionContainers(l, yield)
+		}
+		var fl []*wire.N
+		for i := 0; i < ln; i++ {
+			fl = append(fl, mrep[i%len(mrep)].Clone())
+		}
+		yield(FlowMod(0, Match(fl...), Instr("instr_goto_table", 1)))
+		var bl []*wire.N
+		for i := 0; i < ln; i++ {
+			bl = append(bl, bks[(i*2+1)%len(bks)].Clone())
+		}
+		yield(GroupMod(0, 1, bl...))
+	}
+	yield(FlowMod(0, nil, Instr("instr_meter", 1), Instr("instr_apply_actions", 2, Action("act_output", 1)), Instr("instr_write_actions", 3, Action("act_group", 2)), Instr("instr_write_metadata", 4), Instr("instr_goto_table", 5)))
+	if done("L2b ordered triples over four size-distinct actions and lists of 4, 5, 8 distinct children in every container") {
 		return
 	}
 	// nesting: bundle add around representatives of every kind, bundle add inside bundle add, 64 KiB boundary
@@ -349,7 +403,31 @@ func Controller(thorough bool, expired func() bool, level func(name string, comp
 			yield(GroupMod(0, 1, s...))
 		}
 	})
-	done("L3 all ordered triples over the residue-complete subsets of actions, match fields, instructions, buckets")
+	if done("L3 all ordered triples over the residue-complete subsets of actions, match fields, instructions, buckets") {
+		return
+	}
+	// L4 (thorough): all ordered triples over every action kind (buildable and literal-built), all
+	// 4-sequences over five size-distinct actions, all triples over the twelve match representatives
+	var all []*wire.N
+	for _, k := range ActionKinds {
+		all = append(all, Action(k, len(all)))
+	}
+	seqs(all, 3, 3, func(s []*wire.N) {
+		if !expired() {
+			actionContainers(s, yield)
+		}
+	})
+	seqs(arep[:5], 4, 4, func(s []*wire.N) {
+		if !expired() {
+			actionContainers(s, yield)
+		}
+	})
+	seqs(mrep, 3, 3, func(s []*wire.N) {
+		if !expired() {
+			yield(FlowMod(0, Match(s...), Instr("instr_goto_table", 1)))
+		}
+	})
+	done("L4 all ordered triples over all 32 action kinds in 5 containers, 4-sequences over five size-distinct actions, triples over the twelve match representatives")
 }
 
 // LateGrowthShapes are trees in which a conntrack action with nested actions is followed by another
